@@ -158,6 +158,18 @@ CLAIMED = {
              "non-extended upper half, abs of unsigned values with bit 63.",
         technique="Coq proof by structural induction over expression trees + execution of real generated bytecode in a kernel-validated ISA model",
         ref="7/C01"),
+    "C03": dict(
+        text="Theorems C03_combination / C03_with_block (induction over ALL condition trees built with & | ~: the code of compare(negative) jumps away exactly "
+             "when the condition is false resp. true, so the body runs iff the condition holds and the Else part iff not), C03_atom_signed / C03_atom_unsigned / "
+             "C03_bit_test (for all operand expressions and values: the jump of a comparison atom tests the exact comparison when the values fit the width "
+             "it is evaluated at - the model Gen/Cond.v transcribes SimpleComparison.compare's choice of 32/64-bit jump, re-extension and operand widths on "
+             "top of C01's operand model). Tie: the REAL generator's code for random nested / sequenced with-blocks (with and without Else, and/or/not trees, "
+             "bit and truth tests) runs in the kernel-validated Coq ISA model; every reached block must take the branch the model predicts (all cases) and "
+             "the branch the exact truth selects (inside the range precondition); execution must continue after the construct.",
+        note=TB + "Partial: jump patching, Else splicing and register ownership merging are not modelled (covered by execution of the emitted code, sampled); "
+             "signed bit tests are covered by execution only.",
+        technique="Coq proof by induction over condition trees + execution of real generated bytecode in a kernel-validated ISA model",
+        ref="7/C03"),
 }
 
 REASONS_NOT_YET = "no check built yet in this round (planned, see DESIGN.md section 7); nothing is claimed for it"
